@@ -40,6 +40,40 @@ CLAIMED = {
    note=BASE + "Known findings K7, K8 are reported as KNOWN-FINDING by generator guards.",
    technique="Coq theorems about an extracted Gallina model + differential correspondence with the implementation",
    design="§6 C06"),
+ 'C01': dict(
+   text="Theorems: whatever decode_witness accepts is an admissible assignment whose derivation closure is exactly the returned "
+        "instance (no choice node, nothing missing), with in-domain design-variable values; the admissible set is empty iff every "
+        "assignment conflicts. Every decode of both selection-choice encoders over the declared space is submitted to the "
+        "extracted decode_witness; errors are allowed only when the model's enumeration is empty.",
+   note=BASE + "Which valid vector the corrector picks is abstracted (relation, not function). E is read from all_des_vars. Connection choices are not in this check. Known findings K7, K8, K9 by generator guards.",
+   technique="Coq theorems about an extracted Gallina model + differential correspondence with the implementation", design="§6 C01"),
+ 'C03': dict(
+   text="Theorems: an accepted decode result describes its instance — each active selection variable holds the index of the option "
+        "taken, design-variable nodes carry the reported clamped values, values are in range; the instance depends only on the set "
+        "of pairs. Checked per decode through decode_witness(Full), plus idempotence and one-vector-one-architecture on the "
+        "implementation's outputs with the model's witness as architecture identity.",
+   note=BASE + "Known findings K2, K7, K8, K9 by generator guards.",
+   technique="Coq theorems about an extracted Gallina model + differential correspondence with the implementation", design="§6 C03"),
+ 'C04': dict(
+   text="Theorems: rows_of lists exactly the vectors of admissible assignments with in-domain design-variable values; every "
+        "admissible architecture is listed; assignments are enumerated once each; n_valid is the number of rows. "
+        "get_all_discrete_x, get_n_valid_designs, get_n_design_space, imputation ratio and statistics of the complete encoder are "
+        "compared with the extracted rows_of / n_declared.",
+   note=BASE + "A taken choice may be listed inactive (auto-resolved): rows are matched one-to-one to architectures with that relaxation. Duplicate-freeness of the product rows is checked by the model's enc_ok per case, not yet a theorem. Known findings K2, K7, K8, K9.",
+   technique="Coq theorems about an extracted Gallina model + differential correspondence with the implementation", design="§6 C04"),
+ 'C07': dict(
+   text="Theorems: in an accepted decode an active selection variable's choice was reached and its option is in the instance, a "
+        "design-variable variable is active iff its node is in the instance, inactive variables are canonical; active entries of "
+        "enumerated rows refer to existing elements. Activeness is compared across get_all_discrete_x, get_graph(create=True/False) "
+        "and raw vectors, and conditional-activeness flags against the model's rows.",
+   note=BASE + "Connection encoders' activeness is covered under C10. Known findings K2, K7, K8, K9.",
+   technique="Coq theorems about an extracted Gallina model + differential correspondence with the implementation", design="§6 C07"),
+ 'C14': dict(
+   text="Theorems: accepted decodes are admissible architectures; the reference enumeration is exactly the admissible assignments; "
+        "every admissible assignment is reachable by a legal greedy run. The fast encoder is decoded over its whole declared space "
+        "and the image compared with enum_adm; corrected vectors must be fixed points.",
+   note=BASE + "F5 (zero selection choices) fixed by 305cac2. Known findings K7, K8.",
+   technique="Coq theorems about an extracted Gallina model + differential correspondence with the implementation", design="§6 C14"),
 }
 NA_REASON = "machinery under construction in this round; not yet claimed"
 
